@@ -30,6 +30,16 @@ Theorem C09_failure_delivered : forall v st pubs o,
 Proof. exact failure_delivered. Qed.
 Print Assumptions C09_failure_delivered.
 
+(* The other direction, for uniquely tagged pubs: if invocation k failed, every call that has a pub in k's argument and has
+   returned, returned k's exception (and its pubs occupy a slot of k's argument).  That every such call does return is
+   C08_strong_fair_termination. *)
+Theorem C09_failed_batch_members : forall v calls sched st pubs o k arg p,
+  failure_path_repaired v = true -> NoDup (submitted calls) -> run v (init_state calls) sched = Some st ->
+  returned st pubs o -> nth_error (log (sh st)) k = Some (arg, false) -> In p pubs -> In p arg ->
+  exists idx, o = RetExc k idx /\ slice_at arg idx pubs.
+Proof. exact failed_batch_members. Qed.
+Print Assumptions C09_failed_batch_members.
+
 (* Whenever no batch is open, the shared fields have their initial values and the variable lock is free, however many
    earlier invocations failed; so C06/C07/C08 apply to the continuation unchanged. *)
 Theorem C09_reset_after_failure : forall v st,
